@@ -6,7 +6,12 @@ package checks
 // sorts last, so every check is registered when its init runs.
 func init() {
 	extra := map[string]map[string]int{
-		"C02": {"first_tx_rolled_back": 20},
+		"C02": {"first_tx_rolled_back": 20, "mode_roundtrip_exclusive_from_shared": 10},
+		"C04": {"page_size_65536_cases": 3},
+		"C06": {"fork_replica_holds_first_file": 3},
+		"C09": {"removals_checked_against_service": 30},
+		"C10": {"hot_exports_http1": 5},
+		"C20": {"holder_snapshot_tx_after_drop": 5, "holder_tx_apply_failed_early": 5},
 		"C03": {"two_writer_rounds_released_by_close": 2, "commit_frame_padded": 100},
 		"C01": {"last_connection_closed_before_change": 1},
 		"C05": {"points_recreate-first-tx": 5, "points_wal-to-rollback": 5, "mode_after_recovery_checked": 300, "first_wal_tx_interrupted": 1},
